@@ -311,16 +311,25 @@ where
 {
     let (to_sim, from_worker) = std::sync::mpsc::channel::<Call>();
     let (to_worker, from_sim) = std::sync::mpsc::channel::<Reply>();
+    let (result_tx, result_rx) = std::sync::mpsc::channel::<std::thread::Result<R>>();
     with(|h| h.job_enter(token));
-    let thread = std::thread::spawn(move || {
+    let worker = pool_worker();
+    let job: PoolJob = Box::new(move || {
         let done = to_sim.clone();
-        let proxy: Rc<dyn SimHooks> = Rc::new(ProxyHooks { to_sim, from_sim });
-        install(proxy);
-        let result = f();
-        uninstall();
+        let result = std::panic::catch_unwind(std::panic::AssertUnwindSafe(move || {
+            let proxy: Rc<dyn SimHooks> = Rc::new(ProxyHooks { to_sim, from_sim });
+            install(proxy);
+            let result = f();
+            uninstall();
+            result
+        }));
+        if result.is_err() {
+            uninstall();
+        }
+        let _ = result_tx.send(result);
         let _ = done.send(Call::Done);
-        result
     });
+    worker.send(job).expect("closure thread is gone");
     loop {
         // the closure's thread is the only one running now: wait for its next step
         match from_worker.recv() {
@@ -344,12 +353,34 @@ where
             }
         }
     }
-    let result = thread.join();
+    let result = result_rx.recv();
+    IDLE_WORKERS.with(|p| p.borrow_mut().push(worker));
     with(|h| h.job_exit(token));
     match result {
-        Ok(r) => r,
-        Err(payload) => std::panic::resume_unwind(payload),
+        Ok(Ok(r)) => r,
+        Ok(Err(payload)) => std::panic::resume_unwind(payload),
+        Err(_) => panic!("closure thread is gone"),
     }
+}
+
+type PoolJob = Box<dyn FnOnce() + Send + 'static>;
+
+thread_local! {
+    /// Closure threads of this simulator thread that wait for their next job (a thread per job
+    /// makes thread creation and exit the bottleneck when many simulator threads run in one process).
+    static IDLE_WORKERS: RefCell<Vec<std::sync::mpsc::Sender<PoolJob>>> = RefCell::new(Vec::new());
+}
+
+fn pool_worker() -> std::sync::mpsc::Sender<PoolJob> {
+    IDLE_WORKERS.with(|p| p.borrow_mut().pop()).unwrap_or_else(|| {
+        let (tx, rx) = std::sync::mpsc::channel::<PoolJob>();
+        std::thread::spawn(move || {
+            while let Ok(job) = rx.recv() {
+                job();
+            }
+        });
+        tx
+    })
 }
 
 /// `std::fs::File` wrapper reporting every operation to the installed hooks. Its inherent
